@@ -670,6 +670,19 @@ void ArrayManager::processArrayDeclaration(Variable &var, const ASTNode *node) {
                 }
             }
             var.is_assigned = true;
+        } else if (node->init_expr->node_type == ASTNodeType::AST_VARIABLE &&
+                   node->type_info != TYPE_STRUCT) {
+            // 配列変数で初期化 (int[3] b = a;): 配列全体をコピー
+            Variable *source_var =
+                interpreter_->find_variable(node->init_expr->name);
+            if (!source_var || !source_var->is_array) {
+                throw std::runtime_error("Array initializer is not an array: " +
+                                         node->init_expr->name);
+            }
+            if (var.array_size > 0 && source_var->array_size != var.array_size) {
+                throw std::runtime_error("Array size mismatch");
+            }
+            copyArray(var, *source_var);
         } else if (node->init_expr->node_type == ASTNodeType::AST_FUNC_CALL) {
             // 関数呼び出しで初期化 - 静的配列と動的配列の両方を許可
             debug_msg(DebugMsgId::ARRAY_DECL_DEBUG,
